@@ -30,6 +30,9 @@ RUNS = {
     "C11": {"quick": 4000, "thorough": 400000},
     "C14": {"quick": 480, "thorough": 30000},
     "C15": {"quick": 480, "thorough": 30000},
+    "C16": {"quick": 480, "thorough": 30000},
+    "C17": {"quick": 480, "thorough": 30000},
+    "C19": {"quick": 480, "thorough": 30000},
     "C05": {"quick": 480, "thorough": 30000},
     "C06": {"quick": 480, "thorough": 30000},
     "C07": {"quick": 480, "thorough": 30000},
